@@ -836,6 +836,9 @@ def run(chk):
                                        ("asmjit/core/codeholder.cpp", r"asmjit::CodeHolder::(copy_section_data|copy_flattened_data|reserve_buffer|grow_buffer)$")],
                                  fixture="/verif/fixtures/asmjit/wrapping_bound.cpp")
 
+    from lib import spanblock
+    spanblock.run(chk)
+
     return chk.finish(
         level="other",
         explanation=("Accounting / guard / flag rules over asmjit/core/jitallocator.{h,cpp}: inverse-paired statistics updates on all "
